@@ -1368,6 +1368,45 @@ def _straight_line(stmts, env, tracked, lets):
                     raise _Untranslatable('tracked name assigned under control flow: ' + sub.id)
 
 
+def _seek_spec(fn):
+    """(whence, in_finally) of the reader generator `fn` (an ast.FunctionDef): where is
+    `f.seek(start_position, os.SEEK_xxx)` relative to the yields?"""
+    def whence_of(st):
+        if isinstance(st, ast.Expr) and isinstance(st.value, ast.Call) and ast.unparse(st.value.func) == 'f.seek' \
+                and len(st.value.args) == 2 and not st.value.keywords and ast.unparse(st.value.args[0]) == 'start_position':
+            return {'os.SEEK_SET': 'set', 'os.SEEK_CUR': 'cur'}.get(ast.unparse(st.value.args[1]), '?')
+        return None
+    withs = [n for n in fn.body if isinstance(n, ast.With)]
+    if len(withs) != 1 or ast.unparse(withs[0].items[0]) != 'Opener(fileobj) as f':
+        raise _Untranslatable(fn.name + ': expected one `with Opener(fileobj) as f:` block')
+    body = withs[0].body
+    if not body or ast.unparse(body[0]) != 'start_position = f.tell()':
+        raise _Untranslatable(fn.name + ': `start_position = f.tell()` is not the first statement of the with block')
+    stores = [n for n in ast.walk(fn) if isinstance(n, ast.Name) and n.id == 'start_position' and isinstance(n.ctx, ast.Store)]
+    if len(stores) != 1:
+        raise _Untranslatable(fn.name + ': start_position assigned more than once')
+    seeks = [(st, whence_of(st)) for st in ast.walk(fn) if whence_of(st) is not None]
+    if len(seeks) != 1 or seeks[0][1] == '?':
+        raise _Untranslatable(fn.name + ': expected exactly one f.seek(start_position, os.SEEK_SET|os.SEEK_CUR)')
+    seek, whence = seeks[0]
+    yields = [n for n in ast.walk(fn) if isinstance(n, (ast.Yield, ast.YieldFrom))]
+    if not yields:
+        raise _Untranslatable(fn.name + ' is not a generator')
+    for t in [n for n in ast.walk(fn) if isinstance(n, ast.Try)]:
+        if seek in t.finalbody:
+            if len(t.finalbody) != 1 or t.handlers or t.orelse or t not in body:
+                raise _Untranslatable(fn.name + ': unexpected shape of the try/finally around the reader loop')
+            inside = {id(n) for b in t.body for n in ast.walk(b)}
+            if not all(id(y) in inside for y in yields):
+                raise _Untranslatable(fn.name + ': a yield outside the try/finally')
+            if body.index(t) != 1 or len(body) != 2:
+                raise _Untranslatable(fn.name + ': statements between f.tell() and the try, or after the try')
+            return whence, True
+    if body[-1] is seek:
+        return whence, False
+    raise _Untranslatable(fn.name + ': the seek back to start_position is neither in a finally clause nor the last statement')
+
+
 def regen():
     src_tck = open(os.path.join(REPO, 'nibabel', 'streamlines', 'tck.py')).read()
     src_trk = open(os.path.join(REPO, 'nibabel', 'streamlines', 'trk.py')).read()
@@ -1430,7 +1469,30 @@ def regen():
     maxlen = inspect.signature(trk.encode_value_in_name).parameters['max_name_len'].default
     name_item = trk.header_2_dtype['scalar_name'].subdtype
     prop_item = trk.header_2_dtype['property_name'].subdtype
+    seek_tck = _seek_spec(fr)
+    seek_trk = _seek_spec(_find_func(ast.parse(src_trk), 'TrkFile', '_read'))
+    from nibabel.streamlines.header import Field
+    hd = trk.header_2_dtype
+
+    def off(name, kind=None):
+        dt, o = hd.fields[name][0], hd.fields[name][1]
+        if kind is not None and dt.base.str[1:] != kind:
+            raise _Untranslatable(f'TRK header field {name} has dtype {dt}, expected {kind}')
+        return int(o)
+    offs = {'Ns': off(Field.NB_SCALARS_PER_POINT, 'i2'), 'ScalarNames': off('scalar_name', 'S20'),
+            'Np': off(Field.NB_PROPERTIES_PER_STREAMLINE, 'i2'), 'PropNames': off('property_name', 'S20'),
+            'B': off(Field.VOXEL_TO_RASMM), 'N': off(Field.NB_STREAMLINES, 'i4'), 'Version': off('version', 'i4'),
+            'HdrSize': off('hdr_size', 'i4')}
+    names = list(hd.names)
+    if names[names.index('property_name') + 1] != Field.VOXEL_TO_RASMM or names[-3:] != [Field.NB_STREAMLINES, 'version', 'hdr_size'] \
+            or names[names.index(Field.NB_SCALARS_PER_POINT):names.index(Field.VOXEL_TO_RASMM)] != \
+            [Field.NB_SCALARS_PER_POINT, 'scalar_name', Field.NB_PROPERTIES_PER_STREAMLINE, 'property_name']:
+        raise _Untranslatable('TRK header field order changed')
+
+    def spec(sp):
+        return '⟨.%s, %s⟩' % (sp[0], 'true' if sp[1] else 'false')
     body = f'''import NibabelModel.Model.C16
+import NibabelModel.Model.C16_Ext
 /-! GENERATED on every run by harness/props/c16.py `regen()` from nibabel/streamlines/tck.py and trk.py
     of the working tree — do not edit.  The `_eq_model` theorems tie the hand-written model to the
     current source text; the property theorems in Props/C16 are stated about these definitions. -/
@@ -1463,6 +1525,27 @@ def trkMaxProps : Nat := {int(trk.MAX_NB_NAMED_PROPERTIES_PER_STREAMLINE)}
 def trkNameFields : Nat := {int(name_item[1][0])}
 def trkPropFields : Nat := {int(prop_item[1][0])}
 
+/-- read off the AST of `TckFile._read` / `TrkFile._read`: the `f.seek(start_position, os.SEEK_xxx)` and whether it is
+    the only statement of the `finally:` clause of a `try` that encloses every `yield` (and directly follows
+    `start_position = f.tell()`), or the last statement of the body -/
+def tckReadSeek : SeekSpec := {spec(seek_tck)}
+def trkReadSeek : SeekSpec := {spec(seek_trk)}
+
+/-- byte offsets of the TRK header fields in `header_2_dtype` -/
+def trkOffNs : Nat := {offs['Ns']}
+def trkOffScalarNames : Nat := {offs['ScalarNames']}
+def trkOffNp : Nat := {offs['Np']}
+def trkOffPropNames : Nat := {offs['PropNames']}
+def trkOffB : Nat := {offs['B']}
+def trkOffN : Nat := {offs['N']}
+def trkOffVersion : Nat := {offs['Version']}
+def trkOffHdrSize : Nat := {offs['HdrSize']}
+
+theorem readSeek_eq_model : tckReadSeek = Nb.C16.seekFixed ∧ trkReadSeek = Nb.C16.seekFixed := by decide
+theorem trkOffsets_eq_model :
+    trkOffNs = Nb.C16.trkOffNs ∧ trkOffScalarNames = Nb.C16.trkOffScalarNames ∧ trkOffNp = Nb.C16.trkOffNp ∧
+    trkOffPropNames = Nb.C16.trkOffPropNames ∧ trkOffB = Nb.C16.trkOffB ∧ trkOffN = Nb.C16.trkOffN ∧
+    trkOffVersion = Nb.C16.trkOffVersion ∧ trkOffHdrSize = Nb.C16.trkOffHdrSize := by decide
 theorem tckHdrOffset_eq_model (n : Nat) : tckHdrOffset n = Nb.C16.tckHdrOffset n := rfl
 theorem tckBufferBytes_eq_model (n : Nat) : tckBufferBytes n = Nb.C16.tckBufferBytes n := rfl
 theorem consts_eq_model :
@@ -1476,4 +1559,5 @@ theorem consts_eq_model :
 end Nb.C16.Gen
 '''
     write_if_changed(os.path.join(LEAN, 'NibabelModel', 'Generated', 'C16.lean'), body)
-    return ['Nb.C16.Gen.tckHdrOffset_eq_model', 'Nb.C16.Gen.tckBufferBytes_eq_model', 'Nb.C16.Gen.consts_eq_model']
+    return ['Nb.C16.Gen.tckHdrOffset_eq_model', 'Nb.C16.Gen.tckBufferBytes_eq_model', 'Nb.C16.Gen.consts_eq_model',
+            'Nb.C16.Gen.readSeek_eq_model', 'Nb.C16.Gen.trkOffsets_eq_model']
